@@ -115,10 +115,10 @@ inst!(disp_g1_7_15, [props=C09+C01+C02+C07 xprops=C14 tier=quick cfg=x86std t=18
 inst!(disp_g1_16_17, [props=C09+C01+C02+C07 xprops=C14 tier=quick cfg=x86std t=1800 role=dispatcher-symbolic-cpu uw=byte_by_byte:34;all::memchr::One::count_raw.0:67;all::memchr:10;find_raw.0:3;find_raw.1:4;count_raw.0:3;count_raw.1:4], 19,
     x86::dispatcher::<16, 17>(1));
 #[cfg(any(vcfg_x86std, vcfg_x86none, vcfg_x86alloc, vcfg_x86avx2, vcfg_x86rel))]
-inst!(disp_g1_31_32, [props=C09+C01+C02+C07 xprops=C14 tier=quick cfg=x86std t=1800 role=dispatcher-symbolic-cpu uw=byte_by_byte:34;all::memchr::One::count_raw.0:67;all::memchr:10;find_raw.0:3;find_raw.1:4;count_raw.0:3;count_raw.1:4], 34,
+inst!(disp_g1_31_32, [props=C09+C01+C02+C07 xprops=C14 tier=thorough cfg=x86std t=1800 role=dispatcher-symbolic-cpu uw=byte_by_byte:34;all::memchr::One::count_raw.0:67;all::memchr:10;find_raw.0:3;find_raw.1:4;count_raw.0:3;count_raw.1:4], 34,
     x86::dispatcher::<31, 32>(1));
 #[cfg(any(vcfg_x86std, vcfg_x86none, vcfg_x86alloc, vcfg_x86avx2, vcfg_x86rel))]
-inst!(disp_g1_33_9, [props=C09+C01+C02+C07 xprops=C14 tier=quick cfg=x86std t=1800 role=dispatcher-symbolic-cpu uw=byte_by_byte:34;all::memchr::One::count_raw.0:67;all::memchr:10;find_raw.0:3;find_raw.1:4;count_raw.0:3;count_raw.1:4], 35,
+inst!(disp_g1_33_9, [props=C09+C01+C02+C07 xprops=C14 tier=thorough cfg=x86std t=1800 role=dispatcher-symbolic-cpu uw=byte_by_byte:34;all::memchr::One::count_raw.0:67;all::memchr:10;find_raw.0:3;find_raw.1:4;count_raw.0:3;count_raw.1:4], 35,
     x86::dispatcher::<33, 9>(1));
 #[cfg(any(vcfg_x86std, vcfg_x86none, vcfg_x86alloc, vcfg_x86avx2, vcfg_x86rel))]
 inst!(disp_g1_1_14, [props=C09+C01+C02+C07 xprops=C14 tier=thorough cfg=x86std t=1800 role=dispatcher-symbolic-cpu uw=byte_by_byte:34;all::memchr::One::count_raw.0:67;all::memchr:10;find_raw.0:3;find_raw.1:4;count_raw.0:3;count_raw.1:4], 16,
@@ -157,10 +157,10 @@ inst!(disp_g2_7_15, [props=C09+C01+C02 xprops=C14 tier=quick cfg=x86std t=1800 r
 inst!(disp_g2_16_17, [props=C09+C01+C02 xprops=C14 tier=quick cfg=x86std t=1800 role=dispatcher-symbolic-cpu uw=byte_by_byte:34;all::memchr::One::count_raw.0:67;all::memchr:10;find_raw.0:3;find_raw.1:4;count_raw.0:3;count_raw.1:4], 3,
     x86::dispatcher::<16, 17>(2));
 #[cfg(any(vcfg_x86std, vcfg_x86none, vcfg_x86alloc, vcfg_x86avx2, vcfg_x86rel))]
-inst!(disp_g2_31_32, [props=C09+C01+C02 xprops=C14 tier=quick cfg=x86std t=1800 role=dispatcher-symbolic-cpu uw=byte_by_byte:34;all::memchr::One::count_raw.0:67;all::memchr:10;find_raw.0:3;find_raw.1:4;count_raw.0:3;count_raw.1:4], 3,
+inst!(disp_g2_31_32, [props=C09+C01+C02 xprops=C14 tier=thorough cfg=x86std t=1800 role=dispatcher-symbolic-cpu uw=byte_by_byte:34;all::memchr::One::count_raw.0:67;all::memchr:10;find_raw.0:3;find_raw.1:4;count_raw.0:3;count_raw.1:4], 3,
     x86::dispatcher::<31, 32>(2));
 #[cfg(any(vcfg_x86std, vcfg_x86none, vcfg_x86alloc, vcfg_x86avx2, vcfg_x86rel))]
-inst!(disp_g2_33_9, [props=C09+C01+C02 xprops=C14 tier=quick cfg=x86std t=1800 role=dispatcher-symbolic-cpu uw=byte_by_byte:34;all::memchr::One::count_raw.0:67;all::memchr:10;find_raw.0:3;find_raw.1:4;count_raw.0:3;count_raw.1:4], 3,
+inst!(disp_g2_33_9, [props=C09+C01+C02 xprops=C14 tier=thorough cfg=x86std t=1800 role=dispatcher-symbolic-cpu uw=byte_by_byte:34;all::memchr::One::count_raw.0:67;all::memchr:10;find_raw.0:3;find_raw.1:4;count_raw.0:3;count_raw.1:4], 3,
     x86::dispatcher::<33, 9>(2));
 #[cfg(any(vcfg_x86std, vcfg_x86none, vcfg_x86alloc, vcfg_x86avx2, vcfg_x86rel))]
 inst!(disp_g2_1_14, [props=C09+C01+C02 xprops=C14 tier=thorough cfg=x86std t=1800 role=dispatcher-symbolic-cpu uw=byte_by_byte:34;all::memchr::One::count_raw.0:67;all::memchr:10;find_raw.0:3;find_raw.1:4;count_raw.0:3;count_raw.1:4], 3,
@@ -199,10 +199,10 @@ inst!(disp_g3_7_15, [props=C09+C01+C02 xprops=C14 tier=quick cfg=x86std t=1800 r
 inst!(disp_g3_16_17, [props=C09+C01+C02 xprops=C14 tier=quick cfg=x86std t=1800 role=dispatcher-symbolic-cpu uw=byte_by_byte:34;all::memchr::One::count_raw.0:67;all::memchr:10;find_raw.0:3;find_raw.1:4;count_raw.0:3;count_raw.1:4], 3,
     x86::dispatcher::<16, 17>(3));
 #[cfg(any(vcfg_x86std, vcfg_x86none, vcfg_x86alloc, vcfg_x86avx2, vcfg_x86rel))]
-inst!(disp_g3_31_32, [props=C09+C01+C02 xprops=C14 tier=quick cfg=x86std t=1800 role=dispatcher-symbolic-cpu uw=byte_by_byte:34;all::memchr::One::count_raw.0:67;all::memchr:10;find_raw.0:3;find_raw.1:4;count_raw.0:3;count_raw.1:4], 3,
+inst!(disp_g3_31_32, [props=C09+C01+C02 xprops=C14 tier=thorough cfg=x86std t=1800 role=dispatcher-symbolic-cpu uw=byte_by_byte:34;all::memchr::One::count_raw.0:67;all::memchr:10;find_raw.0:3;find_raw.1:4;count_raw.0:3;count_raw.1:4], 3,
     x86::dispatcher::<31, 32>(3));
 #[cfg(any(vcfg_x86std, vcfg_x86none, vcfg_x86alloc, vcfg_x86avx2, vcfg_x86rel))]
-inst!(disp_g3_33_9, [props=C09+C01+C02 xprops=C14 tier=quick cfg=x86std t=1800 role=dispatcher-symbolic-cpu uw=byte_by_byte:34;all::memchr::One::count_raw.0:67;all::memchr:10;find_raw.0:3;find_raw.1:4;count_raw.0:3;count_raw.1:4], 3,
+inst!(disp_g3_33_9, [props=C09+C01+C02 xprops=C14 tier=thorough cfg=x86std t=1800 role=dispatcher-symbolic-cpu uw=byte_by_byte:34;all::memchr::One::count_raw.0:67;all::memchr:10;find_raw.0:3;find_raw.1:4;count_raw.0:3;count_raw.1:4], 3,
     x86::dispatcher::<33, 9>(3));
 #[cfg(any(vcfg_x86std, vcfg_x86none, vcfg_x86alloc, vcfg_x86avx2, vcfg_x86rel))]
 inst!(disp_g3_1_14, [props=C09+C01+C02 xprops=C14 tier=thorough cfg=x86std t=1800 role=dispatcher-symbolic-cpu uw=byte_by_byte:34;all::memchr::One::count_raw.0:67;all::memchr:10;find_raw.0:3;find_raw.1:4;count_raw.0:3;count_raw.1:4], 3,
@@ -238,7 +238,7 @@ inst!(diff_g1_12, [props=C09 xprops=C14 tier=quick cfg=x86std t=1800 role=backen
 inst!(diff_g1_18, [props=C09 xprops=C14 tier=quick cfg=x86std t=1800 role=backend-differential uw=byte_by_byte:34;all::memchr::One::count_raw.0:67;all::memchr:10;find_raw.0:3;find_raw.1:4;count_raw.0:3;count_raw.1:4], 3,
     x86::differential::<18>(1));
 #[cfg(any(vcfg_x86std, vcfg_x86none, vcfg_x86alloc, vcfg_x86avx2, vcfg_x86rel))]
-inst!(diff_g1_34, [props=C09 xprops=C14 tier=quick cfg=x86std t=1800 role=backend-differential uw=byte_by_byte:34;all::memchr::One::count_raw.0:67;all::memchr:10;find_raw.0:3;find_raw.1:4;count_raw.0:3;count_raw.1:4], 3,
+inst!(diff_g1_34, [props=C09 xprops=C14 tier=thorough cfg=x86std t=1800 role=backend-differential uw=byte_by_byte:34;all::memchr::One::count_raw.0:67;all::memchr:10;find_raw.0:3;find_raw.1:4;count_raw.0:3;count_raw.1:4], 3,
     x86::differential::<34>(1));
 #[cfg(any(vcfg_x86std, vcfg_x86none, vcfg_x86alloc, vcfg_x86avx2, vcfg_x86rel))]
 inst!(diff_g1_0, [props=C09 xprops=C14 tier=thorough cfg=x86std t=1800 role=backend-differential uw=byte_by_byte:34;all::memchr::One::count_raw.0:67;all::memchr:10;find_raw.0:3;find_raw.1:4;count_raw.0:3;count_raw.1:4], 3,
@@ -280,7 +280,7 @@ inst!(diff_g2_12, [props=C09 xprops=C14 tier=quick cfg=x86std t=1800 role=backen
 inst!(diff_g2_18, [props=C09 xprops=C14 tier=quick cfg=x86std t=1800 role=backend-differential uw=byte_by_byte:34;all::memchr::One::count_raw.0:67;all::memchr:10;find_raw.0:3;find_raw.1:4;count_raw.0:3;count_raw.1:4], 3,
     x86::differential::<18>(2));
 #[cfg(any(vcfg_x86std, vcfg_x86none, vcfg_x86alloc, vcfg_x86avx2, vcfg_x86rel))]
-inst!(diff_g2_34, [props=C09 xprops=C14 tier=quick cfg=x86std t=1800 role=backend-differential uw=byte_by_byte:34;all::memchr::One::count_raw.0:67;all::memchr:10;find_raw.0:3;find_raw.1:4;count_raw.0:3;count_raw.1:4], 3,
+inst!(diff_g2_34, [props=C09 xprops=C14 tier=thorough cfg=x86std t=1800 role=backend-differential uw=byte_by_byte:34;all::memchr::One::count_raw.0:67;all::memchr:10;find_raw.0:3;find_raw.1:4;count_raw.0:3;count_raw.1:4], 3,
     x86::differential::<34>(2));
 #[cfg(any(vcfg_x86std, vcfg_x86none, vcfg_x86alloc, vcfg_x86avx2, vcfg_x86rel))]
 inst!(diff_g2_0, [props=C09 xprops=C14 tier=thorough cfg=x86std t=1800 role=backend-differential uw=byte_by_byte:34;all::memchr::One::count_raw.0:67;all::memchr:10;find_raw.0:3;find_raw.1:4;count_raw.0:3;count_raw.1:4], 3,
@@ -322,7 +322,7 @@ inst!(diff_g3_12, [props=C09 xprops=C14 tier=quick cfg=x86std t=1800 role=backen
 inst!(diff_g3_18, [props=C09 xprops=C14 tier=quick cfg=x86std t=1800 role=backend-differential uw=byte_by_byte:34;all::memchr::One::count_raw.0:67;all::memchr:10;find_raw.0:3;find_raw.1:4;count_raw.0:3;count_raw.1:4], 3,
     x86::differential::<18>(3));
 #[cfg(any(vcfg_x86std, vcfg_x86none, vcfg_x86alloc, vcfg_x86avx2, vcfg_x86rel))]
-inst!(diff_g3_34, [props=C09 xprops=C14 tier=quick cfg=x86std t=1800 role=backend-differential uw=byte_by_byte:34;all::memchr::One::count_raw.0:67;all::memchr:10;find_raw.0:3;find_raw.1:4;count_raw.0:3;count_raw.1:4], 3,
+inst!(diff_g3_34, [props=C09 xprops=C14 tier=thorough cfg=x86std t=1800 role=backend-differential uw=byte_by_byte:34;all::memchr::One::count_raw.0:67;all::memchr:10;find_raw.0:3;find_raw.1:4;count_raw.0:3;count_raw.1:4], 3,
     x86::differential::<34>(3));
 #[cfg(any(vcfg_x86std, vcfg_x86none, vcfg_x86alloc, vcfg_x86avx2, vcfg_x86rel))]
 inst!(diff_g3_0, [props=C09 xprops=C14 tier=thorough cfg=x86std t=1800 role=backend-differential uw=byte_by_byte:34;all::memchr::One::count_raw.0:67;all::memchr:10;find_raw.0:3;find_raw.1:4;count_raw.0:3;count_raw.1:4], 3,
@@ -407,4 +407,4 @@ inst!(mx_top_34, [props=C09 xprops=C14 tier=quick cfg=x86none+x86alloc+x86avx2 t
     matrix::top::<34>());
 #[cfg(any(vcfg_x86none, vcfg_x86alloc, vcfg_x86avx2))]
 inst!(mx_sub_n2, [props=C09 xprops=C14 tier=quick cfg=x86none+x86alloc+x86avx2 t=1800 role=config-matrix-substring uw=@RK;@TWNEW;@TWOFF;with_ranker:6;oracle:6;@PP32], 3,
-    matrix::substring::<2, 15>(0, 15));
+    matrix::substring::<2, 10>(0, 10));
